@@ -57,6 +57,29 @@ Theorem c07_roundtrip_exact_finite_range :
 Proof. exact fr_roundtrip_linear. Qed.
 Print Assumptions c07_roundtrip_exact_finite_range.
 
+(* finite range with cast_int=True (linear scaling): every listed value values[i] = round(grid
+   point i) encodes to the index of a grid point that rounds to the same integer (ties at
+   half-integers included; duplicates in [values] are harmless) *)
+Theorem c07_roundtrip_exact_finite_range_castint :
+  forall eps r i, 0 < eps < 1 # 2 -> f_sc r = Domain.linear -> f_cast_int r = true -> f_lo r <= f_hi r ->
+    (0 <= i < f_size r)%Z ->
+    exists e y, fr_to_nd eps r (fr_map_from_int r i) = Some e /\ 0 <= e <= 1 /\
+                fr_from_nd eps r e = Some y /\ val_eqb (fr_map_from_int r i) y = true.
+Proof. exact fr_roundtrip_castint. Qed.
+Print Assumptions c07_roundtrip_exact_finite_range_castint.
+
+(* ordinal with nearest-neighbour encoding (kind nn / nn-log): every category encodes into [0,1]
+   and decodes back to itself.  [sc] is the transform of the domain (identity or log);
+   [increasing] on the internal values is what OrdinalNearestNeighbor asserts (strictly increasing
+   categories; preserved by log); the range is the one the encoder builds *)
+Theorem c07_roundtrip_exact_ordinal_nn :
+  forall eps sc cats r i x, 0 <= eps -> increasing (nn_cats_int sc cats) ->
+    c_sc r = Domain.linear -> c_lo r = nn_lower_int (nn_cats_int sc cats) ->
+    c_hi r = nn_upper_int (nn_cats_int sc cats) -> nth_error cats i = Some x ->
+    exists e, nn_to_nd eps sc cats r x = Some e /\ 0 <= e <= 1 /\ nn_from_nd eps sc cats r e = Some x.
+Proof. exact nn_roundtrip. Qed.
+Print Assumptions c07_roundtrip_exact_ordinal_nn.
+
 (* categorical one-hot, with or without active choices (members outside the active set included:
    data encoded w.r.t. the full range decodes as before) *)
 Theorem c07_roundtrip_exact_onehot :
@@ -77,8 +100,10 @@ Print Assumptions c07_roundtrip_exact_index.
 
 (* a whole space (every combination of the above, any length): advertised length, inside the
    unit cube, decodes back to the same configuration.
-   _partial: ordinal nearest-neighbour ranges and finite ranges with cast_int / log scaling are
-   excluded by [hp_rt_ok]; full statement = the same without that exclusion. *)
+   _partial: finite ranges must have LINEAR scaling (logfinrange is excluded by [hp_rt_ok]; over Q
+   no log exists, and DomainR.v does not restate finite ranges); everything else is covered:
+   continuous / integer ranges under [sc_good], cast_int finite ranges, one-hot, binary,
+   ordinal-equal and nearest-neighbour ordinals. *)
 Theorem c07_roundtrip_space_partial :
   forall eps hs xs, 0 < eps < 1 # 2 ->
     Forall2 (fun h x => hp_rt_ok eps h /\ hp_rt_member h x) hs xs ->
